@@ -1045,7 +1045,7 @@ func (c *c14Case) oracle(i int, o *vu.Out) {
 			for _, v := range kv.vv {
 				for _, p := range strings.Split(v, ";") {
 					if p = strings.TrimLeft(p, " "); p != "" {
-						want[ck] = append(want[ck], p)
+						want[ck] = append(want[ck], p) // empty crumbs are compared away on both sides
 					}
 				}
 			}
@@ -1057,7 +1057,11 @@ func (c *c14Case) oracle(i int, o *vu.Out) {
 	for k, vv := range sq.header {
 		if k == "Cookie" {
 			for _, v := range vv {
-				got[k] = append(got[k], strings.Split(v, "; ")...)
+				for _, p := range strings.Split(v, "; ") {
+					if p != "" {
+						got[k] = append(got[k], p)
+					}
+				}
 			}
 			continue
 		}
